@@ -11,7 +11,7 @@ from common import qlit, natlit, blit, lst, tup, opt, coq_bad_indices, coq_eval_
 
 PROP = "C13"
 PROPERTY_FILE = "Properties/C13.v"
-GEN_DEPS = []
+GEN_DEPS = ["GenTieChain"]
 RULE = ("cases: create_from_fixed_nb_of_points (dyadic h, nb 0..60, dim 1..3), CTMCCredit (dim 1..3, symmetric or not, dyadic "
         "thresholds incl. rejected ones, dyadic truncation bounds injected for the root search), refine^n (n<=6) of random dyadic "
         "admissible axes and of constructor outputs with shared/per-axis storage and aliases of origin_coordinate taken before "
@@ -21,8 +21,10 @@ RULE = ("cases: create_from_fixed_nb_of_points (dyadic h, nb 0..60, dim 1..3), C
         "and random-bound geometric grids against the R model (interval lemmas, 1e-12); oracle stream: every constructor (uniform, "
         "fixed, geometric, with-bounds, probability-step dim 1..3, credit) on step and real models; heavy-tailed models "
         "(CGMY/HEM/Merton/VG with slow tails, p up to 0.999999): refusal or promised tail by closed-form mpmath tails; "
-        "LevyDrivenSDEModel branch of compute_truncation (dim 1..3) against its driver.  non-trivial = distinct case with >= 2 "
-        "states on a side or >= 1 refinement")
+        "LevyDrivenSDEModel branch of compute_truncation (dim 1..3) against its driver; wave 6: compute_right_axis / compute_left_axis "
+        "(+ CTMCGridProbabilityStep on top) on constant-density measures on [-A, A] (exhaustion + except branches), random dyadic step "
+        "measures and HEM / Merton models, against the loop model with recorded (table) or Coq-defined (linear) oracles.  "
+        "non-trivial = distinct case with >= 2 states on a side or >= 1 refinement")
 MODELLED = ["numpy arrays as lists of Q (lists of R for np.geomspace axes with arbitrary real bounds); np.insert/np.concatenate/list "
             "comprehension semantics (tied by exact correspondence)",
             "np.linspace as start + i*(stop-start)/(num-1) over Q: tied EXACTLY on dyadic bounds/steps (uniform_exact group, dim 1-3) "
@@ -34,7 +36,16 @@ MODELLED = ["numpy arrays as lists of Q (lists of R for np.geomspace axes with a
             "root finders (brentq) and quadrature are NOT modelled: truncation bounds are inputs of the model; probability-step axes "
             "are modelled under the root finder's specification (F strictly increasing, F(root x p) - F x = p while F x + p <= M) while the tail is "
             "not exhausted; the origin-adjacent gaps and the extrapolated end gaps of CTMCGridProbabilityStep are oracle-only",
-            "Coordinates.__imul__ (in-place doubling): one mutable cell g_o; aliases checked by the correspondence"]
+            "Coordinates.__imul__ (in-place doubling): one mutable cell g_o; aliases checked by the correspondence",
+            "wave 6: CTMCGrid.left_point / right_point (int variant) and CTMCGrid.middle(float, float) are REGENERATED from "
+            "rpylib/grid/spatial.py on every run (py2coq loop plug-in, Gen/GenTieChain.v) and linked to the hand models Model/Grid.v "
+            "left_point / right_point / amid by theorems (C13_gen_*_is_model, proofs in Proofs/Tie_Chain.v); the n-level refinement theorem "
+            "is restated for the generated middle (C13_gen_middle_refine_n)",
+            "wave 6: the `while True` loops of compute_right_axis and compute_left_axis with every branch (exhaustion exit and its "
+            "extrapolated last point, try branch, bare-except branch incl. first-root-found/second-raised, np.append / np.insert(.,0,.) / "
+            "[1:] / [:-1]) and the assembly of CTMCGridProbabilityStep.__init__: Model/ProbStepLoop.v, over Q, with the quadrature test "
+            "and the root finder as ARBITRARY oracle functions (root x = None: the call raised) and a fuel for `while True`; tied by "
+            "vm_compute on recorded oracle answers (any measure, 1e-12) and on Coq-defined oracles (constant density, 1e-9)"]
 ASSUMPTIONS = ["grid.middle returns a point strictly inside a gap, and x/2 next to the origin (hypotheses mid_between, mid_left0, "
                "mid_right0): proved for CTMCGrid.middle (C13_amid_ok); for CTMCGridProbabilityStep.middle checked by the oracle on "
                "every refined grid (brentq bracket), not proved",
@@ -44,6 +55,10 @@ ASSUMPTIONS = ["grid.middle returns a point strictly inside a gap, and x/2 next 
                "C13_probstep_gaps / C13_probstep_refine assume the root finder's specification (exact root, strictly increasing "
                "cumulative jump probability); on the implementation the per-gap probability p (and p/2 after one refine) is monitored "
                "within 1e-6",
+               "C13_probstep_right_loop / _left_loop / _ctor_admissible assume of the root finder only that a returned root lies strictly "
+               "beyond the bracket end it started from (monitored on every recorded root search: histogram probloop_root_beyond_bracket_end), "
+               "and that the loop terminates (fuel); C13_probstep_right_shape / _left_shape additionally assume F(root x) - F x == q and "
+               "that a refusal is monotone along the axis (bracket [x, 100] resp. [-100, x])",
                "Coq standard-library real-number axioms (classical reals, functional extensionality) for the R theorems"]
 THEOREM_NOTES = {
     "C13_fixed_admissible": "for the repaired constructor (ValueError for nb_of_points < 2, commit 'fix: create_from_fixed_nb_of_points ...' on fix-grid)",
@@ -59,7 +74,19 @@ THEOREM_NOTES = {
     "C13_refine_n_R / C13_refine_step_R": "CTMCGrid.refine with the arithmetic-mean middle on real axes (R twins of C13_refine_n_axis_admissible / C13_refine_nests)",
     "C13_probstep_gaps / C13_probstep_refine": "under the root finder's specification only (F strictly increasing; F(root x p) - F x = p required only while F x + p <= M, the mass available; n steps with F x + n*p <= M; satisfiable: C13_probstep_nonvacuous); right "
                               "half axis beyond h while the tail is not exhausted (the `p_left < p/2` exit with its extrapolated last point and the `except` "
-                              "branch of compute_right_axis are not modelled); the left half axis is the mirror image and is not stated separately",
+                              "branch are outside THESE two R theorems; they are inside the wave-6 loop model: C13_probstep_right_shape / _left_shape)",
+    "C13_probstep_right_loop / C13_probstep_left_loop / C13_probstep_ctor_admissible": "every branch of the two loops, for ARBITRARY oracles "
+                              "(quadrature test, root finder with None = raised); only hypothesis: a returned root lies strictly beyond the bracket end; "
+                              "conditional on termination (the model's fuel; `while True` in the code: termination is not proved -- a root finder "
+                              "that keeps succeeding while the test never fires loops forever)",
+    "C13_probstep_right_shape / C13_probstep_left_shape": "per-gap content incl. exhaustion: regular gaps carry exactly p = 2q under the root "
+                              "specification, then k >= 1 extrapolated states with one constant spacing 2d; the left loop is modelled as written "
+                              "(delta = |start_right - middle_point|, measured from the inner end of the last gap), it is NOT the mirror image of the "
+                              "right loop (delta = |middle_point - start_right|, from the moving end): observation O-C13-w6-1, the extrapolated left "
+                              "steps are longer (constant density on [-2,2], h = p = 1/4: right 0.25, 1.1875, 2.125, 3.0625; left -0.25, -1.1875, -4, "
+                              "-6.8125); no promise of the property is broken (the extrapolated gaps carry no promised probability)",
+    "C13_gen_left_point_is_model / _right_point_ / _middle_ / C13_gen_middle_refine_n": "generated-from-source definitions (Gen/GenTieChain.v) equal the hand "
+                              "models; Python int index = Z.of_nat k (non-negative coordinates, which is what the chain uses)",
     "middle": "the n-level theorems need one STATELESS middle (proved instance: the arithmetic mean); CTMCGridProbabilityStep.middle reads grid.h: "
               "only the one-step theorems C13_refine_nests_axis / C13_refine_admissible_axis apply to it (oracle-checked premises), plus C13_probstep_refine "
               "away from the origin",
@@ -68,7 +95,7 @@ THEOREM_NOTES = {
                         "integrate and with independent closed-form tails; in heavy-tailed regimes the constructor must refuse (ValueError) or deliver",
     "constructor exceptions": "an exception that is neither an argument guard nor the root search's refusal (no sign change on [-100, 100]) is reported as a violation",
 }
-LEVEL_TEXT = ("Proof: 31 Coq theorems + 4 examples (Q theorems closed under the global context; R theorems under the standard real-number axioms) "
+LEVEL_TEXT = ("Proof: 40 Coq theorems + 6 examples (Q theorems closed under the global context; R theorems under the standard real-number axioms) "
               "state that create_from_fixed_nb_of_points, CTMCUniformGrid (np.linspace as its mathematical sequence), CTMCGridGeometric (both "
               "constructors; np.geomspace as start*(stop/start)^(i/(n-1)) over R for every real bound, and over Q for rational common ratios, the "
               "two linked by a theorem) and CTMCCredit return, for every argument they accept, strictly increasing axes with 0 at the origin "
@@ -77,12 +104,18 @@ LEVEL_TEXT = ("Proof: 31 Coq theorems + 4 examples (Q theorems closed under the 
               "state at 2^n times its index, inserts exactly one state strictly inside each gap at grid.middle, halves h, doubles the (shared) "
               "origin index and leaves the truncations unchanged, for every n, every admissible grid (in particular every uniform and geometric "
               "grid, composed theorems) and every middle function with the stated three properties.  Probability-step axes: under the root "
-              "finder's specification every gap carries the requested probability p and refining yields the axis of step p/2.  The model is "
+              "finder's specification every gap carries the requested probability p and refining yields the axis of step p/2; wave 6: the two "
+              "construction loops compute_right_axis / compute_left_axis with their exhaustion and except branches are inside the model "
+              "(arbitrary quadrature / root-finder oracles): whenever they terminate the half axes are strictly increasing from +-h, the "
+              "assembled axis of CTMCGridProbabilityStep is admissible, and under the root specification the axis is `regular gaps of "
+              "probability exactly p, then >= 1 equally spaced extrapolated states` on both sides (left twin stated separately: the left "
+              "loop is not the mirror image of the right one).  left_point / right_point / middle are regenerated from the source by "
+              "py2coq on every run and proved equal to the hand models.  The model is "
               "tied to /repo by exact vm_compute correspondence on dyadic inputs (fixed, credit, uniform with dyadic linspace step, refine^n, "
-              "aliasing), by 1e-12 correspondence for np.geomspace (vm_compute for rational ratios, interval-arithmetic lemmas for real-model "
+              "aliasing, probability-step loops on recorded oracle answers), by 1e-12 correspondence for np.geomspace (vm_compute for rational ratios, interval-arithmetic lemmas for real-model "
               "and random bounds) and by an oracle on every constructor of the implementation (dim 1-3, LevyModel / copula / SDE-model "
               "arguments).  Partial: promised tail / per-step probabilities are monitored (own integrate + independent closed-form tails, heavy "
-              "tails included), not proved; brentq and the quadrature are specified, never verified.")
+              "tails included), not proved; brentq and the quadrature are specified, never verified; termination of the two `while True` loops is not proved.")
 LEVEL_NOTE = ("Trusted: Coq kernel + vm_compute + coq-interval; floats modelled as Q / R (exact on the dyadic inputs of the correspondence, 1e-12 "
               "elsewhere); numpy array semantics; root finders (brentq) not modelled; mpmath for the independent tails.")
 TECHNIQUE = ("Coq proof over Q/list and R/list (induction on axes, lra/lia/nra, exp/ln monotonicity) + exact vm_compute correspondence on dyadic grids "
@@ -390,6 +423,8 @@ def correspond(res):
     _heavy_tail_monitor(res, rng5, viol, thorough)
     _probstep_nd_and_sde(res, rng5, viol, thorough)
     _geomspace_R_tie(res, rng5, thorough)
+    # ---- 6. wave 6: the loops of compute_right_axis / compute_left_axis, every branch (Model/ProbStepLoop.v)
+    groups.extend(_probstep_loop_cases(res, random.Random(res.seed + 6), viol, thorough))
 
     groups.append(("uniform", "Q * Q * Q * option (list Q * nat)",
                    "fun c => match c with (l, h, r, e) => match uniform_axis l h r, e with "
@@ -398,7 +433,7 @@ def correspond(res):
                    "forallb (fun xy => Qle_bool (Qabs (fst xy - snd xy)) ((1 + Qabs (snd xy)) * (1 # 1000000000000))) (combine xs ys) "
                    "| _, _ => false end end", list(UNIFORM_CASES)))
     # ---- Coq side ---------------------------------------------------------------------------
-    header = "From Coq Require Import ZArith QArith Qabs List Bool.\nFrom RV Require Import Base.QB Model.Grid Model.GridGeom.\nOpen Scope Q_scope."
+    header = "From Coq Require Import ZArith QArith Qabs List Bool.\nFrom RV Require Import Base.QB Model.Grid Model.GridGeom Model.ProbStepLoop.\nOpen Scope Q_scope."
     res.case_lemmas += len(groups)
     bad = coq_bad_indices(PROP, "cases", header, groups, timeout=900)
     for gname, ty, chk, cases in groups:
@@ -558,6 +593,94 @@ def _geomspace_R_tie(res, rng, thorough):
         res.broke("correspondence geomspace_R", f"a state of np.geomspace is not within 1e-12 of the R model: {out[-700:]}")
     else:
         res.case_ok += 1
+
+
+# ------------------------------------------------------------------------------------------ wave 6: probability-step loops
+LOOP_FUEL = 600
+LOOP_TAB_CHECK = ("fun c => match c with (isr, h, rt, et, e) => "
+                  f"match (if (isr : bool) then compute_right_axis (tab_exh {TOL12} et) (tab_root {TOL12} rt) {LOOP_FUEL} h "
+                  f"else compute_left_axis (tab_exh {TOL12} et) (tab_root {TOL12} rt) {LOOP_FUEL} h) with "
+                  f"| Some xs => qlist_close {TOL12} xs e | None => false end end")
+LOOP_LIN_CHECK = ("fun c => match c with (isr, A, h, q, w, e) => "
+                  f"match (if (isr : bool) then compute_right_axis (lin_exh_r A h q) (lin_root_r w A) {LOOP_FUEL} h "
+                  f"else compute_left_axis (lin_exh_l A h q) (lin_root_l w A) {LOOP_FUEL} h) with "
+                  "| Some xs => qlist_close (1 # 1000000000) xs e | None => false end end")
+
+
+def _probstep_loop_cases(res, rng, viol, thorough):
+    """compute_right_axis / compute_left_axis (and CTMCGridProbabilityStep.__init__ on top of them) against Model/ProbStepLoop.v.
+    Group probloop_tab: ANY measure (dyadic step measures, HEM / Merton real models).  The answers of the root searches (root or
+    `raised`) and of the exhaustion tests that the implementation met during the run are recorded by pass-through wrappers and given
+    to the model as table oracles; the loop's control flow, the except-branch arithmetic, the extrapolated last point and the
+    slicing are then the model's own: compared state by state (1e-12: float rounding of sr + 2*delta).
+    Group probloop_lin: constant density on [-A, A] (A < 100, the tail gets exhausted, the except branch runs): the oracles are Coq
+    functions (nothing recorded), states compared within 1e-9 (brentq xtol 1e-10)."""
+    import c13_probloop as PL
+    from rpylib.grid.spatial import CTMCGridProbabilityStep
+    from stepmeasure import StepMeasure, StepModel, random_step_measure, real_model_specs, build_model
+    tab_cases, lin_cases = [], []
+    plan = []
+    for A in (Fr(2), Fr(1), Fr(3), Fr(5, 2), Fr(3, 2)):
+        for h in (Fr(1, 4), Fr(1, 8), Fr(1, 2)):
+            for p in ((Fr(1, 4), Fr(1, 8), Fr(1, 2), Fr(1, 16), Fr(3, 4), Fr(1)) if thorough or A <= 2 else (Fr(1, 4), Fr(1, 16))):
+                if h / 2 < A:
+                    plan.append(("lin", A, h, p, StepMeasure([-A, A], [Fr(3)], strict=False)))
+    for _ in range(6 if not thorough else 40):
+        nu = random_step_measure(rng, Fr(-rng.randrange(1, 5)), Fr(rng.randrange(1, 5)), zero_prob=0.0)
+        nu.strict = False
+        plan.append(("step", None, Fr(rng.choice([1, 1, 2]), rng.choice([4, 8])), Fr(1, rng.choice([2, 4, 8, 16])), nu))
+    specs = [sp for sp in real_model_specs(rng) if sp["family"] in ("HEM", "MERTON")]
+    for sp in specs:
+        for h, p in ((0.05, 0.1), (0.02, 0.2)) + (((0.1, 0.03),) if thorough else ()):
+            plan.append(("real", sp, h, p, None))
+    for kind, A, h, p, nu in plan:
+        args = {"kind": "probloop", "measure": kind, "h": float(h), "p": float(p), "A": (float(A) if kind == "lin" else None),
+                "spec": (A if kind == "real" else None)}
+        try:
+            with warnings.catch_warnings():
+                warnings.simplefilter("ignore")
+                model = build_model(A) if kind == "real" else StepModel(nu)
+                measure = model.levy_triplet.nu
+                runs = {side: PL.record(side, measure, float(h), float(p)) for side in ("right", "left")}
+                g = CTMCGridProbabilityStep(h=float(h), model=model, minimum_probability_step=float(p))
+        except Exception as e:  # noqa
+            note_exception(res, "probloop_outcome", e, "CTMCGridProbabilityStep/compute_*_axis", args)
+            continue
+        res.count(("probloop", kind, str(A), float(h), float(p), repr(nu)), kind=f"compute_right/left_axis ({kind} measure)")
+        L, R = runs["left"]["axis"], runs["right"]["axis"]
+        # oracle on the implementation: the statement of C13_probstep_right_loop / _left_loop / _ctor_admissible
+        bad = None
+        if len(R) < 2 or R[0] != float(h) or any(b <= a for a, b in zip(R, R[1:])):
+            bad = "compute_right_axis: not strictly increasing from h with >= 2 states"
+        elif len(L) < 2 or L[-1] != -float(h) or any(b <= a for a, b in zip(L, L[1:])):
+            bad = "compute_left_axis: not strictly increasing up to -h with >= 2 states"
+        elif [float(x) for x in g.axes[0]] != L + [0.0] + R or origin_indices(g) != [len(L)]:
+            bad = "CTMCGridProbabilityStep: axis is not left ++ [0] ++ right with pivot len(left)"
+        elif grid_reason(g):
+            bad = "CTMCGridProbabilityStep: " + grid_reason(g)
+        if bad:
+            viol(bad, ctor="CTMCGridProbabilityStep", args=args, left=L, right=R)
+        for side in ("right", "left"):
+            run = runs[side]
+            res.bump("probloop_branches", f"{side}: " + run["branches"])
+            res.bump("probloop_root_beyond_bracket_end", "yes" if run["roots_beyond"] else "NO (premise of the theorem not met)")
+            right = side == "right"
+            tab_cases.append(tup([blit(right), qlit(float(h)),
+                                  lst([f"({qlit(k)}, {opt(v, qlit)})" for k, v in run["roots"]]),
+                                  lst([f"({qlit(m)}, {blit(b)})" for m, b in run["tests"]]),
+                                  lst([qlit(x) for x in run["axis"]])]))
+            if kind == "lin":
+                # the Coq oracles decide `p_left < q` and `x + w <= A` exactly; the code decides them in floats: a case sitting on
+                # one of the two boundaries (within 1e-9) is not compared in this group (it still is in probloop_tab)
+                w_, q_ = p * (A - h / 2), p / 2
+                on_edge = any(abs((A - min(abs(Fr(m)), A)) / (2 * (A - h / 2)) - q_) < Fr(1, 10 ** 9) for m, _ in run["tests"]) \
+                    or any(abs(abs(Fr(k)) + w_ - A) < Fr(1, 10 ** 9) for k, _ in run["roots"])
+                res.bump("probloop_lin_boundary", "on a decision boundary: skipped" if on_edge else "compared")
+                if on_edge:
+                    continue
+                lin_cases.append(tup([blit(right), qlit(A), qlit(h), qlit(p / 2), qlit(p * (A - h / 2)), lst([qlit(x) for x in run["axis"]])]))
+    return [("probloop_tab", "bool * Q * list (Q * option Q) * list (Q * bool) * list Q", LOOP_TAB_CHECK, tab_cases),
+            ("probloop_lin", "bool * Q * Q * Q * Q * list Q", LOOP_LIN_CHECK, lin_cases)]
 
 
 # ------------------------------------------------------------------------------------------ wave 5: promised tail, heavy tails
